@@ -85,6 +85,16 @@ func stopScenarios(hist string, full bool) []e1.Scenario {
 				}
 			}
 		}
+		// ERR packet followed by a close / by an EOF packet, every error spec
+		for _, kind := range []string{"errfin", "erreof"} {
+			for at := 2; at < n; at += 3 {
+				for ei, es := range errSpecs {
+					sc := base(fmt.Sprintf("%s/%s/%s@%d/e%d", hist, pacing, kind, at, ei), hist, pacing)
+					sc.Attempts = []e1.Attempt{att(simmaster.Plan{At: at, Kind: kind, Err: es, Final: "silent"})}
+					out = append(out, sc)
+				}
+			}
+		}
 		// clean ends
 		for _, fin := range []string{"eof", "fin"} {
 			sc := base(fmt.Sprintf("%s/%s/end-%s", hist, pacing, fin), hist, pacing)
@@ -399,6 +409,14 @@ func aliasJobs(thorough bool) []Job {
 		a := att(simmaster.Plan{At: 9, Kind: "fin", Final: "silent"})
 		sc.Attempts = []e1.Attempt{a, clean()}
 		jobs = append(jobs, Job{Sc: sc, Bound: bound})
+		for _, mode := range []string{"ok", "scribble"} {
+			// a rotation right behind a delivered transaction (labels must not change)
+			sc := base(fmt.Sprintf("H2/%s/%s", pacing, mode), "H2", pacing)
+			a := clean()
+			a.HandlerMode = mode
+			sc.Attempts = []e1.Attempt{a}
+			jobs = append(jobs, Job{Sc: sc, Bound: bound})
+		}
 		for _, mode := range []string{"ok", "yield"} {
 			sc := base(fmt.Sprintf("H9/%s/%s", pacing, mode), "H9", pacing)
 			a := clean()
